@@ -1,6 +1,8 @@
 import GeoVerif.Corr.Proto
 import GeoVerif.Model.DMS
 import GeoVerif.Model.UTMUPS
+import GeoVerif.Model.Calendar
+import GeoVerif.Model.ParseLine
 /-!
 Correspondence relations for C10 (DMS / Utility / GeoCoords text layer).
 
@@ -155,7 +157,7 @@ def utmupsString (zone : Int) (northp : Bool) (e n : F64) (prec : Int) (abbr : B
       else strBytes " nan"
     .ok (z ++ one e ++ one n)
 
-def handle (op : String) (args res : List String) : Option Verdict :=
+def handleBase (op : String) (args res : List String) : Option Verdict :=
   match op with
   | "enc" => some <|
     match args with
@@ -311,5 +313,172 @@ def handle (op : String) (args res : List String) : Option Verdict :=
     | r => .bad s!"tool: unexpected result {r}"
   | "enc_rt" | "strval" | "geocoords" | "latlon_rt" | "decdoc" => some .ok     -- oracle-only ops (judged in the harness)
   | _ => Option.none
+
+/-! ### glue: calendar, date strings, `ParseLine`, `trim`, `val<bool>`, `GeoCoords` token dispatch -/
+open GeoVerif.Calendar GeoVerif.ParseLine
+
+/-- `Utility::val<int>` on a string of decimal digits (the only strings `Utility::date` hands to it) -/
+def valIntDigits (s : Bytes) : Option Int :=
+  if s.isEmpty ∨ ¬ s.all (fun c => 48 ≤ c && c ≤ 57) then Option.none else
+  let n : Nat := s.foldl (fun a c => a * 10 + (c - 48)) 0
+  if n ≤ 2147483647 then some (Int.ofNat n) else Option.none
+
+def isDig (c : Nat) : Bool := 48 ≤ c && c ≤ 57
+
+/-- `Utility::date(const std::string&, …)` (without the spelling "now") -/
+def dateStr (s : Bytes) : Option (Int × Int × Int) :=
+  let ys := s.takeWhile isDig
+  match s.dropWhile isDig with
+  | [] => (valIntDigits s).map fun y => (y, 1, 1)
+  | c :: r1 =>
+    if c ≠ 45 then Option.none else if ys.isEmpty then Option.none else
+    match valIntDigits ys with
+    | Option.none => Option.none
+    | some y =>
+      if r1.isEmpty then Option.none else
+      let ms := r1.takeWhile isDig
+      match r1.dropWhile isDig with
+      | [] => (valIntDigits r1).map fun m => (y, m, 1)
+      | c2 :: r2 =>
+        if c2 ≠ 45 then Option.none else if ms.isEmpty then Option.none else
+        match valIntDigits ms with
+        | Option.none => Option.none
+        | some m =>
+          if r2.isEmpty then Option.none else
+          -- the day field goes to val<int> whole: digits only is the modelled case, anything else is judged `unknown`
+          (valIntDigits r2).map fun d => (y, m, d)
+
+/-- is the day field (if any) of a well-delimited date string all digits?  (otherwise `val<int>` sees signs / spaces) -/
+def dateStrModelled (s : Bytes) : Bool :=
+  match s.dropWhile isDig with
+  | [] => true
+  | _ :: r1 => match r1.dropWhile isDig with
+    | [] => true
+    | _ :: r2 => r2.all isDig
+
+/-- `Utility::fractionalyear<double>` -/
+def fracYearStr (s : Bytes) : Except Err F64 :=
+  match utilVal s with
+  | .ok v => .ok v
+  | .error _ =>
+    match dateStr s with
+    | Option.none => .error "date"
+    | some (y, m, d) =>
+      match fracYear y m d with
+      | Option.none => .error "invalid date"
+      | some (y, a, b) => .ok (F64.ofInt y + F64.ofInt a / F64.ofInt b)
+
+def optInts (l : List String) : Option (List Int) := l.mapM parseI
+
+def handleGlue (op : String) (args res : List String) : Option Verdict :=
+  match op with
+  | "calday" => some <|
+    match optInts args with
+    | some [y, m, d] =>
+      (match day y m d, res with
+       | Option.none, ["!E"] => .ok
+       | some s, [r] => if parseI r = some s then .ok else .bad s!"Utility::day({y},{m},{d}): impl={r} model={s}"
+       | mdl, r => .bad s!"Utility::day({y},{m},{d}): impl={r} model={mdl}")
+    | _ => .bad "calday: parse"
+  | "caldaychk" => some <|
+    match optInts args with
+    | some [y, m, d] =>
+      (match dayChecked y m d, res with
+       | Option.none, ["!E"] => .ok
+       | some s, [r] => if parseI r = some s then .ok else .bad s!"Utility::day({y},{m},{d},check): impl={r} model={s}"
+       | mdl, r => .bad s!"Utility::day({y},{m},{d},check): impl={r} model={mdl}")
+    | _ => .bad "caldaychk: parse"
+  | "caldate" => some <|
+    match optInts args with
+    | some [s] =>
+      (match date s, res with
+       | Option.none, ["!E"] => .ok
+       | some (y, m, d), [a, b, c] =>
+         if parseI a = some y ∧ parseI b = some m ∧ parseI c = some d then .ok
+         else .bad s!"Utility::date({s}): impl={a}-{b}-{c} model={y}-{m}-{d}"
+       | mdl, r => .bad s!"Utility::date({s}): impl={r} model={mdl}")
+    | _ => .bad "caldate: parse"
+  | "caldow" => some <|
+    match optInts args, res with
+    | some [s], [r] => if parseI r = some (dow s) then .ok else .bad s!"Utility::dow({s}): impl={r} model={dow s}"
+    | _, _ => .bad "caldow: parse"
+  | "calscan" => some <|
+    match optInts args, res with
+    | some [s0, n], [r] =>
+      let h := scanHash s0 n.toNat
+      if r.toNat? = some h then .ok else .bad s!"calendar scan of days {s0}..+{n}: hash impl={r} model={h}"
+    | _, _ => .bad "calscan: parse"
+  | "datestr" => some <|
+    match args with
+    | [s] => (match parseStr s with
+       | some b =>
+         if Decimal.strBytes "now" == b then .ok
+         else if !dateStrModelled b then .skip "day field is not a digit string (val<int> syntax not modelled)"
+         else (match dateStr b, res with
+          | Option.none, ["!E"] => .ok
+          | some (y, m, d), [a, bb, c] =>
+            if parseI a = some y ∧ parseI bb = some m ∧ parseI c = some d then .ok
+            else .bad s!"Utility::date('{textB b}'): impl={a}-{bb}-{c} model={y}-{m}-{d}"
+          | mdl, r => .bad s!"Utility::date('{textB b}'): impl={r} model={mdl}")
+       | Option.none => .bad "datestr: parse")
+    | _ => .bad "datestr: parse"
+  | "fracyear" => some <|
+    match args with
+    | s :: _ => (match parseStr s with
+       | some b =>
+         if Decimal.strBytes "now" == b then .ok
+         else if !dateStrModelled b then .skip "day field is not a digit string (val<int> syntax not modelled)"
+         else valVerdict "Utility::fractionalyear" b (fracYearStr b) res
+       | Option.none => .bad "fracyear: parse")
+    | _ => .bad "fracyear: parse"
+  | "parseline" => some <|
+    match args, res with
+    | l :: e :: c :: _, [f, k, v] =>
+      (match parseStr l, parseN e, parseN c, parseStr k, parseStr v with
+       | some line, some eq, some cm, some key, some val =>
+         let (mf, mk, mv) := parseLine line eq cm
+         if (f == "1") == mf && key == mk && val == mv then .ok
+         else .bad s!"Utility::ParseLine('{textB line}', equals {eq}, comment {cm}): impl=({f}, '{textB key}', '{textB val}') model=({mf}, '{textB mk}', '{textB mv}')"
+       | _, _, _, _, _ => .bad "parseline: parse")
+    | _, r => .bad s!"parseline: unexpected result {r}"
+  | "trim" => some <|
+    match args, res with
+    | [s], [r] =>
+      (match parseStr s, parseStr r with
+       | some b, some t => if trim b == t then .ok else .bad s!"Utility::trim('{textB b}'): impl='{textB t}' model='{textB (trim b)}'"
+       | _, _ => .bad "trim: parse")
+    | _, _ => .bad "trim: parse"
+  | "valbool" => some <|
+    match args with
+    | s :: _ => (match parseStr s with
+       | some b =>
+         let t := trim b
+         -- numeric spellings go through operator>> (not modelled)
+         if (t.head?.map fun c => isDig c || c == 43 || c == 45).getD false then .skip "numeric spelling"
+         else (match valBoolWord b, res with
+           | Option.none, ["!E"] => .ok
+           | some v, [r] => if (r == "1") == v ∧ (r == "1" ∨ r == "0") then .ok else .bad s!"Utility::val<bool>('{textB b}'): impl={r} model={v}"
+           | mdl, r => .bad s!"Utility::val<bool>('{textB b}'): impl={r} model={mdl}")
+       | Option.none => .bad "valbool: parse")
+    | _ => .bad "valbool: parse"
+  | "gcparse" => some <|
+    -- token dispatch of GeoCoords::Reset: the reader chosen (last result field, computed independently in the harness) is the model's;
+    -- no reader ⇒ GeographicErr
+    match args with
+    | s :: _ => (match parseStr s, res.getLast? with
+       | some b, some k =>
+         let d := dispatch b
+         if parseN k ≠ some d then .bad s!"GeoCoords::Reset('{textB b}'): token dispatch harness={k} model={d} (tokens {(tokens b).length})"
+         else if d = 0 ∧ res.head? ≠ some "!E" then .bad s!"GeoCoords::Reset('{textB b}') accepted although it has {(tokens b).length} tokens / no zone token"
+         else .ok
+       | _, _ => .bad "gcparse: parse")
+    | _ => .bad "gcparse: parse"
+  | "valint" | "rwarray" | "gcalt" | "gcnp" | "dmsnum" => some .ok     -- oracle-only ops (judged in the harness)
+  | _ => Option.none
+
+def handle (op : String) (args res : List String) : Option Verdict :=
+  match handleGlue op args res with
+  | some v => some v
+  | Option.none => handleBase op args res
 
 end GeoVerif.Corr.C10
